@@ -36,6 +36,12 @@ RULE = (
     "skew (offset changes, incl. backwards jumps); messages delivered out of order, duplicated, to several nodes, "
     "HLC stamps optionally through to_dict/from_dict; all event pairs compared against the harness's transitive "
     "happened-before. Non-trivial: >=1 concurrent pair and a causal chain of >=3 events crossing >=1 message. "
+    "longclocks: run-length encoded histories of 66 000-140 000 events on one busy node whose physical reading stays at or "
+    "below the physical component its HLC holds (peer 2 s-1 h ahead, same-instant burst, clock running backwards), a witness "
+    "node on the same component receiving its late stamps, Lamport counters started near 2^16/2^31/2^32/2^63/2^64; every "
+    "program-order successor and every message edge checked (Lamport, HLC, vector snapshots; real VectorClock methods at "
+    "message edges, near powers of two and every 4096th event). Non-trivial: a run of >=65 536 events under one physical "
+    "component and >=2 message edges. "
     "crdt schedules: 3-40 ops over 2-4 replicas (updates with unique ids/tags, direct and to_dict/from_dict merges, "
     "delayed/duplicated/grouped snapshots, reloads, law probes), value and equality checked after every op against "
     "the op-based specification over received-update sets, then a full sync. Non-trivial: updates at >=2 replicas and, "
@@ -59,7 +65,7 @@ ASSUMPTIONS = [
     "the scripted network is loss-free and fast for the last 12 gossip intervals",
     "store/orset: every element is added at most once; only removes issued by the adder after its add are treated as having observed the add",
 ]
-MUST_OBSERVE = ["pairs_checked", "value_checks", "law_checks", "store_fixpoints"]
+MUST_OBSERVE = ["pairs_checked", "value_checks", "law_checks", "store_fixpoints", "long_history_events", "histories_with_run_over_65536"]
 
 
 # ==========================================================================
@@ -403,6 +409,198 @@ def shrink_clocks(case: dict, still_fails) -> dict:
         return still_fails({**case, "events": evs})
 
     return {**case, "events": ddmin(case["events"], fails, max_tests=150)}
+
+
+# ==========================================================================
+# long histories (run-length encoded): large counters, long runs under one HLC physical component
+# ==========================================================================
+
+_LAMPORT_STARTS = [0, 0, 65530, 2**31 - 20, 2**32 - 20, 2**63 - 20, 2**64 - 20]
+
+
+def gen_longclocks(rng: random.Random, tier: str) -> dict:
+    """A few nodes, one of which (the *busy* node) logs a burst of 66 000 - 140 000 events while its physical reading
+    stays at or below the physical component its HLC holds: either because it received a stamp from a peer whose clock is
+    far ahead (skew larger than the duration of the burst) or because the clock stands still (same-instant burst).
+    A *witness* node holding the same physical component receives the busy node's late stamps (receive path)."""
+    scenario = rng.choice(["lagging-receiver", "lagging-receiver", "frozen-instant", "negative-drift"])
+    big = rng.choice([66000, 70000, 70000, 132000, 140000])
+    nodes = ["F", "B", "C"]
+    if scenario == "lagging-receiver":
+        skew = rng.choice([2 * 10**9, 60 * 10**9, 3600 * 10**9])
+        models = [{"kind": "skew", "offset_ns": skew}, {"kind": rng.choice(["none", "skew"]), "offset_ns": -rng.choice([0, 10**6, 10**9])}, {"kind": "skew", "offset_ns": -(10**9)}]
+        dt = rng.choice([0, 1, 7, 1000, 10**9 // big])  # the whole burst lasts < 1.1 s < skew
+    elif scenario == "frozen-instant":
+        models = [{"kind": "none"}, {"kind": "none"}, {"kind": "none"}]
+        dt = 0
+    else:
+        # the busy node's clock runs backwards: its HLC keeps the first physical component for ever
+        models = [{"kind": "none"}, {"kind": "drift", "ppm": rng.choice([-1e6, -1.5e6, -3e6])}, {"kind": "drift", "ppm": -1e6}]
+        dt = rng.choice([1, 1000, 10**6])
+    segs = [
+        {"n": 0, "k": "local", "count": rng.randrange(1, 5), "dt": 10**6},
+        {"n": 0, "k": "send", "count": 1, "dt": 1, "label": "m0"},
+        {"n": 1, "k": "recv", "count": 1, "dt": 1, "from": "m0"},
+        {"n": 2, "k": "recv", "count": 1, "dt": 1, "from": "m0"},
+    ]
+    left = big
+    i = 0
+    while left > 0:
+        c = min(left, rng.choice([1, 100, 5000, 30000, 65536, 70000]))
+        kind = rng.choice(["local", "local", "send", "mixed"])
+        segs.append({"n": 1, "k": kind, "count": c, "dt": dt, "label": f"b{i}"})
+        left -= c
+        i += 1
+        if rng.random() < 0.5:
+            # the witness keeps up: same physical component, logical just behind the busy node's
+            segs.append({"n": 2, "k": "recv", "count": 1, "dt": 0, "from": f"b{i - 1}"})
+            if rng.random() < 0.5:
+                segs.append({"n": 2, "k": "send", "count": 1, "dt": 0, "label": f"c{i}"})
+                segs.append({"n": 1, "k": "recv", "count": 1, "dt": 0, "from": f"c{i}"})
+    segs.append({"n": 1, "k": "send", "count": 1, "dt": 0, "label": "last"})
+    segs.append({"n": 2, "k": "recv", "count": 2, "dt": 0, "from": "last"})  # delivered twice
+    segs.append({"n": 0, "k": "recv", "count": 1, "dt": 1, "from": "last"})
+    segs.append({"n": 0, "k": "local", "count": 3, "dt": 10**9})
+    return {
+        "nodes": nodes,
+        "scenario": scenario,
+        "models": models,
+        "hlc_via": [rng.choice(["node_clock", "wall_time"]) for _ in nodes],
+        "lamport_init": [rng.choice(_LAMPORT_STARTS) for _ in nodes],
+        "t0": rng.choice([0, 10**9, 10 * 10**9]),
+        "segments": segs,
+    }
+
+
+def run_longclocks(case: dict) -> Result:
+    from happysimulator.core.clock import Clock
+    from happysimulator.core.logical_clocks import HybridLogicalClock, LamportClock, VectorClock
+    from happysimulator.core.temporal import Instant
+
+    res = Result()
+    nodes = case["nodes"]
+    base = Clock(Instant(0))
+    ncs, lam, vec, hlc = [], [], [], []
+    for i, nid in enumerate(nodes):
+        nc = _mk_node_clock(case["models"][i])
+        nc.set_clock(base)
+        ncs.append(nc)
+        lam.append(LamportClock(case["lamport_init"][i]))
+        vec.append(VectorClock(nid, list(nodes)))
+        if case["hlc_via"][i] == "wall_time":
+            hlc.append(HybridLogicalClock(nid, wall_time=(lambda nc=nc: nc.now)))
+        else:
+            hlc.append(HybridLogicalClock(nid, physical_clock=nc))
+    msgs: dict[str, dict] = {}
+    prev: dict[int, dict] = {}  # node -> last event's stamps
+    run_len = [0] * len(nodes)  # consecutive events of the node under one HLC physical component
+    max_run = [0] * len(nodes)
+    reported: set[tuple] = set()
+    t = case["t0"]
+    n_events = 0
+    msg_edges = 0
+    max_logical = [0]  # largest HLC logical counter any node has shown so far
+
+    def bucket(x: int) -> str:
+        x = abs(x)
+        return "counter<2^16" if x < 65535 else ("counter<2^32" if x < 2**32 - 1 else ("counter<2^64" if x < 2**64 - 1 else "counter>=2^64"))
+
+    def report(oracle, comp, shape, detail, witness):
+        k = (oracle, comp, shape)
+        if k not in reported:
+            reported.add(k)
+            res.add(oracle, comp, shape, detail, witness)
+
+    def leq_lt(x: dict, y: dict) -> bool:
+        keys = set(x) | set(y)
+        return all(x.get(k, 0) <= y.get(k, 0) for k in keys) and any(x.get(k, 0) < y.get(k, 0) for k in keys)
+
+    def near_pow2(c: int) -> bool:
+        return c >= 255 and ((c + 2) & (c + 1) == 0 or (c + 1) & c == 0 or c & (c - 1) == 0 or (c - 1) & (c - 2) == 0)
+
+    def order(a: dict, b: dict, rel: str, i: int, real_vc: bool):
+        """a -> b (program order on node i, or message edge into node i)."""
+        w = {"relation": rel, "event_no": n_events, "a": _long_json(a), "b": _long_json(b)}
+        if not a["L"] < b["L"]:
+            report("lamport-order", "LamportClock", f"{rel}|{bucket(a['L'])}", f"a -> b ({rel}) but lamport(a)={a['L']} >= lamport(b)={b['L']}", w)
+        if not a["H"] < b["H"]:
+            long_run = "same-physical-component-run>=65536" if max(run_len[i], a.get("run", 0)) >= 65535 or max_logical[0] >= 65535 else "same-physical-component-run<65536"
+            report("hlc-order", "HybridLogicalClock", f"{rel}|{long_run}", f"a -> b ({rel}) but hlc(a)={a['H']} >= hlc(b)={b['H']}", w)
+        if not leq_lt(a["Vs"], b["Vs"]):
+            report("vc-snapshot-misses-causality", "VectorClock", f"{rel}|{bucket(max(a['Vs'].values()))}", f"a -> b ({rel}) but {a['Vs']} !< {b['Vs']}", w)
+        if real_vc:
+            res.count("pairs_checked")
+            va, vb = a["V"](), b["V"]()
+            if not va.happened_before(vb) or vb.happened_before(va) or va.is_concurrent(vb):
+                report("vc-misses-causality", "VectorClock", f"{rel}|{bucket(max(a['Vs'].values()))}", f"a -> b ({rel}) but happened_before(a,b)={va.happened_before(vb)}; {a['Vs']} vs {b['Vs']}", w)
+
+    for seg in case["segments"]:
+        i = seg["n"]
+        for j in range(seg["count"]):
+            kind = seg["k"]
+            if kind == "mixed":
+                kind = "send" if j % 3 == 2 else "local"
+            if kind == "recv" and seg.get("from") not in msgs:
+                break
+            t += seg["dt"]
+            base.update(Instant(t))
+            if kind == "local":
+                lam[i].tick()
+                L = lam[i].time
+                vec[i].tick()
+                H = hlc[i].now()
+            elif kind == "send":
+                L = lam[i].send()
+                vs = vec[i].send()
+                H = hlc[i].send()
+            else:
+                m = msgs[seg["from"]]
+                lam[i].receive(m["L"])
+                L = lam[i].time
+                vec[i].receive(dict(m["Vs"]))
+                hlc[i].receive(m["H"])
+                H = hlc[i]._last if j % 2 == 0 else hlc[i].now()
+            n_events += 1
+            if H.logical > max_logical[0]:
+                max_logical[0] = H.logical
+            Vs = vec[i].snapshot()
+            own = Vs[nodes[i]]
+            p = prev.get(i)
+            real = kind != "local" or near_pow2(own) or near_pow2(H.logical) or (n_events & 4095) == 0
+            if real:
+                snap = _clone(vec[i])
+                cur = {"L": L, "H": H, "Vs": Vs, "V": (lambda snap=snap: snap), "node": nodes[i], "kind": kind}
+            else:
+                cur = {"L": L, "H": H, "Vs": Vs, "node": nodes[i], "kind": kind}
+            if p is not None:
+                run_len[i] = run_len[i] + 1 if p["H"].physical_ns == H.physical_ns else 0
+                max_run[i] = max(max_run[i], run_len[i])
+                order(p, cur, "program-order", i, real and "V" in p)
+            cur["run"] = run_len[i]
+            if kind == "recv":
+                msg_edges += 1
+                order(msgs[seg["from"]], cur, "message", i, True)
+            if kind == "send":
+                if "V" not in cur:
+                    snap = _clone(vec[i])
+                    cur["V"] = lambda snap=snap: snap
+                if seg.get("label"):
+                    msgs[seg["label"]] = cur
+            prev[i] = cur
+    res.count("long_history_events", n_events)
+    res.count("events_monitored", n_events)
+    res.count("long_history_message_edges", msg_edges)
+    res.seen("same_physical_component_run_lengths", max(max_run))
+    if max(max_run) >= 65536 and msg_edges >= 2:
+        res.nontrivial = True
+        res.count("histories_with_run_over_65536")
+    if max(max_run) >= 131072:
+        res.count("histories_with_run_over_131072")
+    return res
+
+
+def _long_json(e: dict) -> dict:
+    return {"node": e["node"], "kind": e["kind"], "lamport": e["L"], "vector": e["Vs"], "hlc": [e["H"].physical_ns, e["H"].logical, e["H"].node_id]}
 
 
 # ==========================================================================
@@ -1264,6 +1462,7 @@ def shrink_store(case: dict, still_fails) -> dict:
 
 FAMILIES = {
     "clocks": Family("clocks", gen_clocks, run_clocks, shrink=shrink_clocks),
+    "longclocks": Family("longclocks", gen_longclocks, run_longclocks, case_timeout=120.0),
     "gcounter": Family("gcounter", gen_crdt("gcounter"), _memo(run_crdt), shrink=shrink_crdt),
     "pncounter": Family("pncounter", gen_crdt("pncounter"), _memo(run_crdt), shrink=shrink_crdt),
     "lww": Family("lww", gen_crdt("lww"), _memo(run_crdt), shrink=shrink_crdt),
@@ -1272,10 +1471,10 @@ FAMILIES = {
 }
 
 # shards sized so that interpreter start-up (importing the library, ~2 s) does not dominate
-for _name, _size in {"clocks": 650, "gcounter": 1000, "pncounter": 1000, "lww": 1200, "orset": 900, "store": 150}.items():
+for _name, _size in {"longclocks": 2, "clocks": 650, "gcounter": 1000, "pncounter": 1000, "lww": 1200, "orset": 900, "store": 150}.items():
     FAMILIES[_name].shard_size = _size
 
 BUDGET = {
-    "quick": {"clocks": 5000, "gcounter": 1000, "pncounter": 1000, "lww": 1200, "orset": 1800, "store": 600},
-    "thorough": {"clocks": 300000, "gcounter": 60000, "pncounter": 60000, "lww": 80000, "orset": 120000, "store": 30000},
+    "quick": {"longclocks": 8, "clocks": 5000, "gcounter": 1000, "pncounter": 1000, "lww": 1200, "orset": 1800, "store": 600},
+    "thorough": {"longclocks": 300, "clocks": 300000, "gcounter": 60000, "pncounter": 60000, "lww": 80000, "orset": 120000, "store": 30000},
 }
